@@ -1082,7 +1082,9 @@ func (r *runner) checkViews() {
 			}
 			gc, wc := map[CKey]string{}, map[CKey]string{}
 			for k, d := range v.Components {
-				if k.Type == typ && !v.Uncertain[k] {
+				// (attachments of entities the client knows to be gone mean nothing to it: a list
+				// answer may still name them)
+				if k.Type == typ && !v.Uncertain[k] && v.Entities[k.Entity] != nil {
 					gc[k] = d
 				}
 			}
@@ -1099,6 +1101,9 @@ func (r *runner) checkViews() {
 		if r.m.Modules["vikja"] && v.GotVikja {
 			ga, wa := map[string]VAction{}, map[string]VAction{}
 			for e, as := range v.Actions {
+				if v.Entities[e] == nil {
+					continue
+				}
 				for n, a := range as {
 					ga[fmt.Sprintf("%d/%s", e, n)] = a
 				}
@@ -1114,7 +1119,13 @@ func (r *runner) checkViews() {
 			}
 		}
 		if r.m.Modules["odal"] && v.GotOdal {
-			if d := diffMaps(v.Assets, s.Assets); d != "" {
+			gas := map[uint32]VAsset{}
+			for e, a := range v.Assets {
+				if v.Entities[e] != nil {
+					gas[e] = a
+				}
+			}
+			if d := diffMaps(gas, s.Assets); d != "" {
 				r.v("C01", "view-assets", "%s's view of the asset instances: %s", c.Label, d)
 				r.v("C16", "joiner-state-mismatch", "%s's view of the asset instances: %s", c.Label, d)
 			}
